@@ -28,7 +28,8 @@ Init == q = <<>>
 Next == Len(q) < MaxLen /\ \E c \in Alphabet : q' = Append(q, c)
 Spec == Init /\ [][Next]_vars
 
-ImplIsSem == \A name \in CfgNames : ImplMatchesSem(q, CfgOf(name))
+ImplIsSem == LET toks == ImplTokens(q)  scan == SemScan(q) IN
+               \A name \in CfgNames : ImplOfMatchesSemOf(toks, scan, CfgOf(name))
 
 \* Laws of the documented language, on Sem itself (the reference must mean what the document says)
 SemLaws ==
